@@ -309,8 +309,19 @@ def run_c18(rep, tier, seed):
         yield "one-block", [full]
         yield "halves", [[c for c in full if c[1] < 3], [c for c in full if c[1] >= 3]]
 
-    for label, blocks in big_cases():
-        H = W = 16
+    def small_cases():
+        # a cut cell LISTED FIRST in a block all of whose cells have at least two neighbours inside the block (two 2x2 squares
+        # joined through one cell), in every rotation of the listing; 4x4 board
+        A = [(0, 0), (0, 1), (1, 0), (1, 1)]
+        Bq = [(2, 2), (2, 3), (3, 2), (3, 3)]
+        c = (1, 2)
+        rest1, rest2 = [(0, 2), (0, 3), (1, 3)], [(2, 0), (2, 1), (3, 0), (3, 1)]
+        blk = [c] + A + Bq
+        for r in range(len(blk)):
+            yield "cut-cell-listed-at-%d" % ((len(blk) - r) % len(blk)), 4, 4, [blk[r:] + blk[:r], list(rest1), list(rest2)]
+
+    all_cases = [(lab, 16, 16, bl) for lab, bl in big_cases()] + list(small_cases())
+    for label, H, W, blocks in all_cases:
         saved = _patch_random(seg, ScriptedRandom(seed + 5))
         try:
             b = seg.SegmentationBuilder2D(H, W, initial_blocks=[list(bl) for bl in blocks], allow_unmet_constraints_first=True)
@@ -324,13 +335,13 @@ def run_c18(rep, tier, seed):
                 e = partition_ok(H, W, alt)
                 rep.evaluations += 1
                 if e:
-                    viol("update-invalid:" + ("connectivity" if "connected" in e else "partition"), e + " (16x16 board, big block: %s)" % label,
+                    viol("update-invalid:" + ("connectivity" if "connected" in e else "partition"), e + " (hand-made %dx%d board: %s)" % (H, W, label),
                          dict(board=[H, W], case=label, update=u))
                     break
             if cur != snap:
-                viol("update-mutates-input", "candidates / copy_with_update changed the value (16x16 board)", dict(board=[H, W], case=label))
+                viol("update-mutates-input", "candidates / copy_with_update changed the value (hand-made board)", dict(board=[H, W], case=label))
         except Exception as ex:
-            viol("walk-exception", "%s: %s (16x16 board, %s)" % (type(ex).__name__, ex, label), dict(board=[16, 16], case=label))
+            viol("walk-exception", "%s: %s (hand-made %dx%d board, %s)" % (type(ex).__name__, ex, H, W, label), dict(board=[H, W], case=label))
         finally:
             _unpatch(seg, saved)
     rep.coverage["updates_applied"] = n_updates
